@@ -115,6 +115,10 @@ def run(worker, sl, maxn, hours):
     t_end = time.time() + hours * 3600
     cnt = 0
     env = dict(os.environ, FV_REPO=wt, FV_WATCHDOG="240", CARGO_NET_OFFLINE="true")
+    # the checks run from a frozen snapshot of /verif, so that work going on in /verif cannot disturb the sweep
+    snap = "/tmp/wt/vsnap"
+    if not os.path.isdir(snap):
+        sh(f"rsync -a --exclude run --exclude target --exclude .git --exclude mutation {ROOT}/ {snap}/")
     for s in mine:
         if s["id"] in done:
             continue
@@ -133,7 +137,7 @@ def run(worker, sl, maxn, hours):
         for c in order:
             t0 = time.time()
             try:
-                r = sh(f"./check.py {c} quick", cwd=ROOT, env=env, timeout=1500)
+                r = sh(f"./check.py {c} quick", cwd=snap, env=env, timeout=1500)
                 rc, out = r.returncode, r.stdout
             except subprocess.TimeoutExpired:
                 rc, out = 2, "INCONCLUSIVE outer timeout"
